@@ -160,6 +160,8 @@ pub struct ReqT {
     pub probe: bool,
     pub end_step: Option<usize>,
     pub timed: bool,
+    /// virtual deadline of the request when a timeout is configured
+    pub deadline_ms: Option<u64>,
 }
 
 /// C14(a) obligation: connection `conn` entered the pool while the requests `waiting` were
@@ -192,6 +194,8 @@ pub struct World {
     /// (cancel step, set of connections that must survive) checked at the next Bg
     pub cancel_watch: Vec<(usize, usize, Vec<usize>)>,
     pub internal: Option<String>,
+    /// virtual clock (sum of Advance operations), ms
+    pub now_ms: u64,
 }
 
 pub type W = Arc<Mutex<World>>;
@@ -829,6 +833,10 @@ fn handoff(w: &mut World, rid: usize, cid: usize, st: usize, req_okey: &str) {
         }
         w.obligations.retain(|o| !o.certain.is_empty());
     }
+    if matches!(w.reqs[rid].status, RStatus::Done | RStatus::Cancelled) {
+        let msg = format!("request #{rid} received connection #{cid} after it had already resolved or been dropped ({:?})", w.reqs[rid].status);
+        w.violate("C19/handoff-after-request-ended", msg);
+    }
     let r = &mut w.reqs[rid];
     if r.handoff.is_some() {
         w.internal = Some(format!("request {rid} handed a second connection"));
@@ -878,6 +886,8 @@ pub enum Op {
     /// composite: issue a request and drive it to completion (dial, handshake, poll, release,
     /// poll, connection ready, background) so that it leaves a pooled connection behind
     Warm { origin: u8, h2: bool },
+    /// composite: issue a request and drive it until it holds a connection (no release)
+    Hold { origin: u8, h2: bool },
     /// real-time sleep (idle expiry variant only)
     Sleep(u16),
     /// virtual time advance (timeouts)
@@ -987,6 +997,7 @@ impl Sim {
             if w.conns.iter().any(|c| c.okey == okey && c.close_step.is_some() && (c.ever_pooled || c.handoffs > 0) && c.handles >= 1 && c.holders.is_empty()) {
                 w.classes.insert("issue-after-pooled-close");
             }
+            let deadline_ms = self.cfg.req_timeout_ms.filter(|_| !probe).map(|d| w.now_ms + d);
             w.reqs.push(ReqT {
                 okey: okey.clone(),
                 h2,
@@ -1003,6 +1014,7 @@ impl Sim {
                 probe,
                 end_step: None,
                 timed: self.cfg.req_timeout_ms.is_some(),
+                deadline_ms,
             });
             w.log(|| format!("issue req#{id} {} h2={h2} must_not_dial={must_not_dial:?}", ORIGINS[origin % ORIGINS.len()]));
         }
@@ -1013,7 +1025,7 @@ impl Sim {
             .body(Empty::<Bytes>::new())
             .unwrap();
         self.set_actor(Actor::Issue(id));
-        let fut: Fut = match self.cfg.req_timeout_ms {
+        let fut: Fut = match self.cfg.req_timeout_ms.filter(|_| !probe) {
             Some(ms) => {
                 let mut t = hyperdriver::service::Timeout::new(
                     self.svc.clone(),
@@ -1108,6 +1120,38 @@ impl Sim {
             );
             let sig = if o.single_polled_waiter { "C14/a-freed-connection-not-delivered-to-waiting-request" } else { "C14/a-freed-connection-not-delivered-to-any-waiter" };
             w.violate(sig, msg);
+        }
+        if let Some(dl) = w.reqs[id].deadline_ms {
+            let now = w.now_ms;
+            let stage = match before_status {
+                RStatus::Holding(_) => "holding-a-connection",
+                RStatus::Polling if w.reqs[id].dials.is_empty() => "waiting-on-another-request",
+                RStatus::Polling => {
+                    if w.reqs[id].dials.iter().any(|d| w.dials[*d].stage == DStage::Handshaking) { "handshaking" } else { "dialing" }
+                }
+                _ => "unpolled",
+            };
+            match &res {
+                Poll::Pending if now >= dl => {
+                    let msg = format!("request #{id} with deadline {dl} ms is still pending when polled at {now} ms ({stage})");
+                    w.violate("C19/pending-after-deadline", msg);
+                }
+                Poll::Ready(Err(e)) if format!("{e:?}").contains("RequestTimeout") => {
+                    if now < dl {
+                        let msg = format!("request #{id} timed out at {now} ms, before its deadline {dl} ms");
+                        w.violate("C19/timeout-before-deadline", msg);
+                    }
+                    w.classes.insert("request-timed-out");
+                    match stage {
+                        "holding-a-connection" => w.classes.insert("timeout-while-holding"),
+                        "waiting-on-another-request" => w.classes.insert("timeout-while-waiting-on-other"),
+                        "handshaking" => w.classes.insert("timeout-while-handshaking"),
+                        "dialing" => w.classes.insert("timeout-while-dialing"),
+                        _ => w.classes.insert("timeout-before-first-poll"),
+                    };
+                }
+                _ => {}
+            }
         }
         match res {
             Poll::Ready(r) => {
@@ -1435,12 +1479,28 @@ impl Sim {
                     true
                 }
             }
+            Op::Hold { origin, h2 } => {
+                if self.slots.len() >= 16 {
+                    false
+                } else {
+                    self.hold(*origin as usize, *h2).await;
+                    true
+                }
+            }
             Op::Sleep(ms) => {
                 std::thread::sleep(Duration::from_millis(*ms as u64));
                 true
             }
             Op::Advance(ms) => {
+                {
+                    let mut w = self.w.lock().unwrap();
+                    w.now_ms += *ms as u64;
+                    let n = w.now_ms;
+                    w.log(|| format!("advance to {n} ms"));
+                }
+                self.set_actor(Actor::Bg);
                 tokio::time::advance(Duration::from_millis(*ms as u64)).await;
+                self.set_actor(Actor::Idle);
                 true
             }
         };
@@ -1451,6 +1511,30 @@ impl Sim {
         let mut w = self.w.lock().unwrap();
         check_idle_bound(&mut w);
         ok
+    }
+
+    /// Composite operation: a fresh request driven until it holds a connection.
+    pub async fn hold(&mut self, origin: usize, h2: bool) -> usize {
+        let id = self.issue(origin, h2, false);
+        self.next_step();
+        self.poll(id);
+        let own: Vec<usize> = self.w.lock().unwrap().reqs[id].dials.clone();
+        for d in own {
+            let (c, h) = {
+                let w = self.w.lock().unwrap();
+                (w.dials[d].connect == Tri::Pending && w.dials[d].stage == DStage::Connecting, w.dials[d].handshake == Tri::Pending)
+            };
+            self.next_step();
+            if c {
+                self.dial_result(d, true);
+            }
+            if h {
+                self.hs_result(d, true, false);
+            }
+        }
+        self.next_step();
+        self.poll(id);
+        id
     }
 
     /// Composite operation: a complete request/response exchange for a fresh request.
@@ -1606,6 +1690,9 @@ impl Sim {
                 "probe request #{id} for {} after the drain did not complete successfully: status {:?} result {:?}",
                 w.reqs[id].okey, w.reqs[id].status, w.reqs[id].result
             );
+            if w.cfg.req_timeout_ms.is_some() {
+                w.violate("C19/probe-failed-after-timeouts", msg.clone());
+            }
             w.violate("C03/probe-failed", msg);
         }
         let _ = dials_before;
@@ -1865,13 +1952,15 @@ pub struct Weights {
     pub takeover: u32,
     pub bg: u32,
     pub warm: u32,
+    pub advance: u32,
+    pub hold: u32,
     pub h2_pct: u32,
     pub alpn_pct: u32,
     pub origins: u8,
 }
 
 pub const GENERIC: Weights = Weights {
-    issue: 16, poll: 28, cancel: 5, dial_ok: 12, dial_fail: 2, hs_ok: 12, hs_fail: 2, release: 10, ready: 10, close: 3, takeover: 1, bg: 14, warm: 6,
+    issue: 16, poll: 28, cancel: 5, dial_ok: 12, dial_fail: 2, hs_ok: 12, hs_fail: 2, release: 10, ready: 10, close: 3, takeover: 1, bg: 14, warm: 6, advance: 0, hold: 3,
     h2_pct: 40, alpn_pct: 10, origins: 6,
 };
 
@@ -1893,6 +1982,8 @@ pub fn op_strategy(wt: Weights) -> impl Strategy<Value = Op> {
         (wt.takeover, any::<u16>().prop_map(Op::TakeOver).boxed()),
         (wt.bg, Just(Op::Bg).boxed()),
         (wt.warm, (0..origins, 0u32..100).prop_map(move |(o, p)| Op::Warm { origin: o, h2: p < h2 }).boxed()),
+        (wt.hold, (0..origins, 0u32..100).prop_map(move |(o, p)| Op::Hold { origin: o, h2: p < h2 }).boxed()),
+        (wt.advance, prop_oneof![Just(1u16), Just(10u16), Just(20u16), 1u16..70].prop_map(Op::Advance).boxed()),
     ];
     proptest::strategy::Union::new_weighted(arms.into_iter().filter(|(w, _)| *w > 0).collect())
 }
@@ -1911,6 +2002,15 @@ pub fn cfg_plain_strategy() -> impl Strategy<Value = PoolCfg> {
         max_idle: 32,
         cont,
         req_timeout_ms: None,
+    })
+}
+
+pub fn cfg_timeout_strategy() -> impl Strategy<Value = PoolCfg> {
+    (prop_oneof![1 => Just(0u64), 3 => Just(20), 3 => Just(50), 2 => Just(120)], any::<bool>(), prop_oneof![Just(1usize), Just(32)]).prop_map(|(t, cont, m)| PoolCfg {
+        idle_timeout_ms: None,
+        max_idle: m,
+        cont,
+        req_timeout_ms: Some(t),
     })
 }
 
